@@ -27,7 +27,17 @@ use gix_ref::Target;
 use hcommon::*;
 
 /// The name space (bytewise sorted).
-pub const NAMES: [&str; 6] = [
+pub const NAMES: [&str; 7] = [
+    "HEAD",
+    "refs/heads/a",
+    "refs/heads/a/b",
+    "refs/heads/b",
+    "refs/heads/zz",
+    "refs/remotes/o/HEAD",
+    "refs/tags/t",
+];
+/// the names edits are generated for
+pub const EDIT_NAMES: [&str; 6] = [
     "HEAD",
     "refs/heads/a",
     "refs/heads/a/b",
@@ -35,7 +45,7 @@ pub const NAMES: [&str; 6] = [
     "refs/remotes/o/HEAD",
     "refs/tags/t",
 ];
-/// A name that is only ever used as the target of a symbolic ref (never written).
+/// A name that is never edited directly, only reached through symbolic refs.
 pub const GHOST: &str = "refs/heads/zz";
 /// short object names: three commits, an annotated tag of c1, and an object that does not exist
 pub const OIDS: [&str; 5] = ["c1", "c2", "c3", "t1", "zz"];
@@ -64,7 +74,7 @@ impl Tgt {
 }
 
 pub fn valid_name(n: &str) -> bool {
-    NAMES.contains(&n) || n == GHOST
+    NAMES.contains(&n)
 }
 
 #[derive(Clone, PartialEq, Eq, Debug)]
@@ -946,6 +956,8 @@ pub struct GenCfg {
     pub backoff: bool,
     /// allow the non-existing object `zz`
     pub missing_oid: bool,
+    /// allow user-level `RefLog::Only` edits
+    pub log_only: bool,
 }
 
 pub fn gen_target(rng: &mut Rng, cfg: &GenCfg) -> Tgt {
@@ -963,7 +975,7 @@ pub fn gen_target(rng: &mut Rng, cfg: &GenCfg) -> Tgt {
         )
     } else {
         let r = rng.below(20);
-        Tgt::S(if r == 0 { GHOST.to_string() } else { rng.pick(&NAMES[1..]).to_string() })
+        Tgt::S(if r == 0 { GHOST.to_string() } else { rng.pick(&EDIT_NAMES[1..]).to_string() })
     }
 }
 
@@ -980,7 +992,7 @@ pub fn leaf_name(view: &BTreeMap<String, Tgt>, name: &str) -> String {
 }
 
 pub fn gen_edit(rng: &mut Rng, view: &BTreeMap<String, Tgt>, cfg: &GenCfg) -> EditSpec {
-    let name = if rng.chance(1, 4) { "HEAD" } else { *rng.pick(&NAMES) }.to_string();
+    let name = if rng.chance(1, 4) { "HEAD" } else { *rng.pick(&EDIT_NAMES) }.to_string();
     let del = rng.chance(3, 10);
     let deref = rng.chance(1, 2);
     let new = (!del).then(|| gen_target(rng, cfg));
@@ -990,7 +1002,7 @@ pub fn gen_edit(rng: &mut Rng, view: &BTreeMap<String, Tgt>, cfg: &GenCfg) -> Ed
     let matching = |rng: &mut Rng| -> Tgt {
         match (&current, rng.chance(7, 10)) {
             (Some(t), true) => t.clone(),
-            _ => gen_target(rng, &GenCfg { backoff: false, missing_oid: false }),
+            _ => gen_target(rng, &GenCfg { backoff: false, missing_oid: false, log_only: false }),
         }
     };
     let r = rng.below(100);
@@ -1015,7 +1027,7 @@ pub fn gen_edit(rng: &mut Rng, view: &BTreeMap<String, Tgt>, cfg: &GenCfg) -> Ed
         deref,
         expected,
         new,
-        log_only: rng.chance(3, 100),
+        log_only: cfg.log_only && rng.chance(3, 100),
     }
 }
 
@@ -1045,7 +1057,7 @@ pub fn gen_txn(rng: &mut Rng, view: &BTreeMap<String, Tgt>, cfg: &GenCfg) -> Op 
 }
 
 pub fn gen_git_update(rng: &mut Rng, view: &BTreeMap<String, Tgt>) -> Op {
-    let name = rng.pick(&NAMES).to_string();
+    let name = rng.pick(&EDIT_NAMES).to_string();
     let del = rng.chance(3, 10);
     let noderef = rng.chance(2, 5);
     let new = (!del).then(|| rng.pick(&["c1", "c2", "c3"]).to_string());
